@@ -196,7 +196,9 @@ func Any(r *rand.Rand, size int) KeySet {
 	if size >= 200 && r.Intn(14) == 0 {
 		return WideBig(r, size)
 	}
-	switch r.Intn(12) {
+	switch r.Intn(13) {
+	case 12:
+		return BigLowNibble(r, size)
 	case 11:
 		return PrefixKeyLongRun(r, size)
 	case 9:
@@ -477,4 +479,26 @@ func PrefixKeyLongRun(r *rand.Rand, maxKeys int) KeySet {
 		}
 	}
 	return KeySet{uniqSorted(m), "prefixkey-longrun"}
+}
+
+// BigLowNibble: a 257-bit node whose more than 10 branch bytes all share one
+// high half-byte, so that its keys first differ in the LOW half of a byte (the
+// builder must align the branching position down to the byte).
+func BigLowNibble(r *rand.Rand, maxKeys int) KeySet {
+	m := map[string]struct{}{}
+	pre := randStr(r, []byte("user-"), 0, 5)
+	hi := byte(r.Intn(16)) << 4
+	n := 11 + r.Intn(6)
+	suffix := randStr(r, []byte("-profile"), 0, 8)
+	for _, lo := range r.Perm(16)[:n] {
+		k := pre + string([]byte{hi | byte(lo)}) + suffix
+		m[k] = struct{}{}
+		if r.Intn(3) == 0 {
+			m[k+randStr(r, alphabets[1], 1, 2)] = struct{}{}
+		}
+		if len(m) >= maxKeys {
+			break
+		}
+	}
+	return KeySet{uniqSorted(m), "biglownibble"}
 }
